@@ -1,4 +1,5 @@
 import RsslVerif.Lemmas.FixpointForms
+import RsslVerif.Lemmas.FixpointPlace
 import RsslVerif.Lemmas.Overload
 set_option linter.unusedSimpArgs false
 /-!
@@ -10,8 +11,8 @@ namespace RsslVerif.Lemmas.FixpointCall
 open RsslVerif.Gen.RankTable RsslVerif.Gen.TypingTables
 open RsslVerif.Model.Conv RsslVerif.Model.Overload RsslVerif.Model.IrTyping RsslVerif.Model.Elab
 open RsslVerif.Model.Fixpoint RsslVerif.Lemmas.ElabConv RsslVerif.Lemmas.Elab RsslVerif.Lemmas.ElabExact
-open RsslVerif.Lemmas.ElabRelease RsslVerif.Lemmas.FixpointElab RsslVerif.Lemmas.FixpointArith
-open RsslVerif.Lemmas.FixpointForms RsslVerif.Lemmas.Overload RsslVerif.Lemmas.Conv
+open RsslVerif.Lemmas.ElabRelease RsslVerif.Lemmas.FixpointElab RsslVerif.Lemmas.FixpointArith RsslVerif.Lemmas.FixpointArithDim
+open RsslVerif.Lemmas.FixpointForms RsslVerif.Lemmas.Overload RsslVerif.Lemmas.Conv RsslVerif.Lemmas.FixpointPlace
 
 /-! ## the overload set -/
 
@@ -165,9 +166,12 @@ theorem castArgs_back : ∀ (ps : List Param) (args : IArgs) (ts : List ETy) (ar
   | _, .nil, _ :: _, _, hih, _, _, _, _ => by simp [ArgsIH] at hih
 
 /-- **Calls are stable under re-elaboration**: the exported call names its function uniquely, every exported argument
-    converts to its parameter again, and the same `Call` node is rebuilt. -/
+    converts to its parameter again, the arguments given for `out` / `inout` parameters are mutable places again, and
+    the same `Call` node is rebuilt.  Since fix 3758fdd (`check_output_arguments` on the converted arguments) an accepted
+    call never carries a `Cast` in an `out` / `inout` position (`outArgsPlain_of_checkOutArgs`), which used to be a
+    hypothesis of this lemma. -/
 theorem elabCall_stable (hR : Renamed Γ Γ') {name : Nat} {args : IArgs} {ts : List ETy} {n : IExpr} {τ : ETy}
-    (h : elabCall Γ name args ts = .ok (n, τ)) (hih : ArgsIH Γ Γ' args ts) (hout : OutArgsPlain Γ n) :
+    (h : elabCall Γ name args ts = .ok (n, τ)) (hih : ArgsIH Γ Γ' args ts) :
     ∀ s', Unelab Γ' n s' → elabE false Γ' s' = .ok (n, τ) := by
   intro s' hu
   unfold elabCall at h
@@ -182,37 +186,39 @@ theorem elabCall_stable (hR : Renamed Γ Γ') {name : Nat} {args : IArgs} {ts : 
       split at h
       · simp at h
       · rename_i args2 hca
-        simp at h
-        obtain ⟨hn, hτ⟩ := h
-        subst hn
-        -- the selected candidate is function `id` with the signature `sg`
-        obtain ⟨c, hc, rc, hrc, hcid⟩ := selected_ranked hsel
-        obtain ⟨j, s, hj, _, hcs⟩ := candsFrom_mem hc
-        have hjid : j = id := by rw [hcs] at hcid; simpa using hcid
-        subst hjid
-        have hs : s = sg := by rw [hsg] at hj; simpa using hj.symm
-        subst hs
-        obtain ⟨hlen1, hlen2⟩ := rankCand_inv hrc
-        rw [hcs] at hlen1 hlen2
-        simp only at hlen1 hlen2
-        -- the exported call
-        obtain ⟨sg', hsg', hp, hnd, hret⟩ := hR.sig j s hsg
-        have hplain : outArgsPlain s.params args2 = true := by
-          simp only [OutArgsPlain] at hout
-          exact hout.1 s hsg
-        cases hu with
-        | call hf' hua =>
-          rename_i sg'' sargs
-          have : sg'' = sg' := by rw [hsg'] at hf'; simpa using hf'.symm
-          subst this
-          obtain ⟨args0, ts0, hela, hca0, ⟨rs, hz⟩, hlen⟩ := castArgs_back s.params args ts args2 hih hca hplain sargs hua
-          have hcands := candidates_renamed hR hsg'
-          have hrank : rankCand ts0 ⟨j, sg''.params, sg''.nonDefault⟩ = .ranked j rs := by
-            simp only [rankCand, hp, hnd, hlen, hlen1, hlen2, and_self, if_true, hz]
-          have hres : resolve (candidates Γ' sg''.name) ts0 = .selected j := by
-            rw [hcands]; exact resolve_single (c := ⟨j, sg''.params, sg''.nonDefault⟩) hrank
-          simp only [elabE, hcands, List.isEmpty_cons, Bool.false_eq_true, if_false, hela]
-          simp only [elabCall, hres, hsg', hp, hca0, selfCheck, hret, hτ]
-          simp [hcands, hres, hsg', hp, hca0, hret, hτ]
+        split at h
+        · simp at h
+        · rename_i hchk
+          simp at h
+          obtain ⟨hn, hτ⟩ := h
+          subst hn
+          -- the selected candidate is function `id` with the signature `sg`
+          obtain ⟨c, hc, rc, hrc, hcid⟩ := selected_ranked hsel
+          obtain ⟨j, s, hj, _, hcs⟩ := candsFrom_mem hc
+          have hjid : j = id := by rw [hcs] at hcid; simpa using hcid
+          subst hjid
+          have hs : s = sg := by rw [hsg] at hj; simpa using hj.symm
+          subst hs
+          obtain ⟨hlen1, hlen2⟩ := rankCand_inv hrc
+          rw [hcs] at hlen1 hlen2
+          simp only at hlen1 hlen2
+          -- the exported call
+          obtain ⟨sg', hsg', hp, hnd, hret⟩ := hR.sig j s hsg
+          have hplain : outArgsPlain s.params args2 = true := outArgsPlain_of_checkOutArgs s.params args2 hchk
+          have hchk' : checkOutArgs Γ' s.params args2 = .ok () := checkOutArgs_renamed hR s.params args2 hchk
+          cases hu with
+          | call hf' hua =>
+            rename_i sg'' sargs
+            have : sg'' = sg' := by rw [hsg'] at hf'; simpa using hf'.symm
+            subst this
+            obtain ⟨args0, ts0, hela, hca0, ⟨rs, hz⟩, hlen⟩ := castArgs_back s.params args ts args2 hih hca hplain sargs hua
+            have hcands := candidates_renamed hR hsg'
+            have hrank : rankCand ts0 ⟨j, sg''.params, sg''.nonDefault⟩ = .ranked j rs := by
+              simp only [rankCand, hp, hnd, hlen, hlen1, hlen2, and_self, if_true, hz]
+            have hres : resolve (candidates Γ' sg''.name) ts0 = .selected j := by
+              rw [hcands]; exact resolve_single (c := ⟨j, sg''.params, sg''.nonDefault⟩) hrank
+            simp only [elabE, hcands, List.isEmpty_cons, Bool.false_eq_true, if_false, hela]
+            simp only [elabCall, hres, hsg', hp, hca0, hchk', selfCheck, hret, hτ]
+            simp [hcands, hres, hsg', hp, hca0, hchk', hret, hτ]
 
 end RsslVerif.Lemmas.FixpointCall
